@@ -1,6 +1,7 @@
 package extract
 
 import (
+	"encoding/json"
 	"fmt"
 	"go/ast"
 	"go/token"
@@ -12,11 +13,24 @@ import (
 	"strings"
 )
 
-// Matchers: table-like facts of every built-in matcher (C03, C04): the name,
-// the Query() constraint list, whether it is a VersionFilter and whether that
-// filter is authoritative, and — of the Vulnerable body — the string literals
-// it compares against / parses (sentinels, the "unfixed" bound, the query keys)
-// and the comparison operators it applies to comparator results, in source order.
+// Matchers: table-like facts of every built-in matcher (C03, C04).
+//
+// EVALUATED through driver.Matcher (probe go/cmd/rxprobe/matchers; design/EXTRACT.md):
+// the name, the Query() constraint list (for rhel also under `ignore_unpatched`),
+// whether the matcher is a VersionFilter and whether that filter is
+// authoritative, what Filter() accepts (which single record field with which
+// value turns a never-matching record into an accepted one, and that a record
+// without the distribution / repository is rejected), and what importing
+// matchers/defaults registers.  Of buildGetQuery (probe
+// go/cmd/rxprobe/querybuilder): the column and record field every constraint
+// compares, the part of the record it needs, the version-filter condition.
+//
+// READ from the sources (shape-tolerant): of the Vulnerable body the string
+// values it compares against / parses (sentinels, the "unfixed" bound, the query
+// keys; named constants resolved, helpers of the same file followed) and the
+// comparison operators it applies to comparator results, in source order; rhel's
+// repository key (package-wide constant); the VersionRange(...) constructors of
+// the insert statement; the comparator pins of go.mod.
 func init() {
 	Register(Gen{Name: "Matchers", Run: func(repo string) (string, error) {
 		type mt struct{ id, file, recv string }
@@ -78,7 +92,7 @@ func init() {
 			}
 			cands[m.id] = set.sorted()
 		}
-		var ev map[string]*struct {
+		type evalMatcher struct {
 			Name            string
 			Query           []int
 			QueryConfigured []int
@@ -88,8 +102,27 @@ func init() {
 			Nil             map[string]string
 			Accepted        []struct{ Path, Value string }
 		}
-		if err := rxProbe(repo, "matchers", cands, &ev); err != nil {
+		var raw map[string]json.RawMessage
+		if err := rxProbe(repo, "matchers", cands, &raw); err != nil {
 			return "", err
+		}
+		ev := map[string]*evalMatcher{}
+		var registered []struct {
+			Name, Factory string
+			Matchers      []string
+		}
+		for k, v := range raw {
+			if k == "registered" {
+				if err := json.Unmarshal(v, &registered); err != nil {
+					return "", fmt.Errorf("matchers probe: %w", err)
+				}
+				continue
+			}
+			e := &evalMatcher{}
+			if err := json.Unmarshal(v, e); err != nil {
+				return "", fmt.Errorf("matchers probe: %s: %w", k, err)
+			}
+			ev[k] = e
 		}
 		// the names of the constraint constants (libvuln/driver; its stringer file may be stale)
 		drv, err := rxLoadPkg(repo, "libvuln/driver")
@@ -181,10 +214,7 @@ func init() {
 		out += "\n/-- String literals of `buildGetQuery`'s `if opts.VersionFiltering` block, and the\n    `VersionRange(...)` constructor calls of the vulnerability insert statement. -/\n"
 		out += "def dbRangeTest : List String := " + LeanStrList(sqlLits) + "\n"
 		// the registered default matchers and the query builder's constraint switch
-		defs, facs, err := c03Defaults(repo)
-		if err != nil {
-			return "", err
-		}
+		defs, facs := rxDefaults(registered)
 		out += "\n/-- matchers/defaults/defaults.go: the packages of the elements of `defaultMatchers`, and the names\n    registered with a factory of their own. -/\n"
 		out += "def defaults : List String := " + LeanStrList(defs) + "\n"
 		out += "def defaultFactories : List String := " + LeanStrList(facs) + "\n"
@@ -542,77 +572,52 @@ func c03Pins(repo string) ([]string, error) {
 	return out, nil
 }
 
-func c03FindValue(files []*ast.File, name string) ast.Expr {
-	for _, f := range files {
-		for _, d := range f.Decls {
-			gd, ok := d.(*ast.GenDecl)
-			if !ok {
-				continue
+// rxDefaults: what importing matchers/defaults registers (evaluated: the probe
+// lists the registry): the matchers registered through driver.MatcherStatic, by
+// the Go type of the matcher, and the names registered with a factory of their
+// own.  The snapshot's spelling and order (the element expressions of the
+// `defaultMatchers` slice) are used for the entries it knows.
+func rxDefaults(registered []struct {
+	Name, Factory string
+	Matchers      []string
+}) (defs, facs []string) {
+	static := map[string]bool{}
+	own := map[string]bool{}
+	for _, r := range registered {
+		if r.Factory == "driver.MatcherFactoryFunc" {
+			for _, m := range r.Matchers {
+				static[strings.TrimPrefix(m, "*")] = true
 			}
-			for _, s := range gd.Specs {
-				vs, ok := s.(*ast.ValueSpec)
-				if !ok {
-					continue
-				}
-				for i, n := range vs.Names {
-					if n.Name == name && i < len(vs.Values) {
-						return vs.Values[i]
-					}
-				}
+			if len(r.Matchers) == 0 {
+				static[r.Name+":hands out no matcher"] = true
 			}
+		} else {
+			own[r.Name+":"+strings.TrimPrefix(r.Factory, "*")] = true
 		}
 	}
-	return nil
-}
-
-// c03Defaults reads matchers/defaults/defaults.go: the elements of the
-// defaultMatchers slice (by package) and the names registered with their own factory.
-func c03Defaults(repo string) (defs, facs []string, err error) {
-	_, f, err := ParseFile(repo, "matchers/defaults/defaults.go")
-	if err != nil {
-		return nil, nil, err
+	for _, sn := range rxSnapDefaults {
+		if static[sn[1]] {
+			defs = append(defs, sn[0])
+			delete(static, sn[1])
+		}
 	}
-	v := c03FindValue([]*ast.File{f}, "defaultMatchers")
-	cl, ok := v.(*ast.CompositeLit)
-	if !ok {
-		return nil, nil, fmt.Errorf("defaults.go: defaultMatchers is not a composite literal")
+	rest := rxSet{}
+	for k := range static {
+		rest.add(k)
 	}
-	for _, el := range cl.Elts {
-		e := el
-		if u, ok := e.(*ast.UnaryExpr); ok {
-			e = u.X
-		}
-		if c, ok := e.(*ast.CompositeLit); ok {
-			e = c.Type
-		}
-		se, ok := e.(*ast.SelectorExpr)
-		if !ok {
-			return nil, nil, fmt.Errorf("defaults.go: element of defaultMatchers not understood")
-		}
-		defs = append(defs, c03ExprText(se))
+	defs = append(defs, rest.sorted()...)
+	rest = rxSet{}
+	for k := range own {
+		rest.add(k)
 	}
-	ast.Inspect(f, func(n ast.Node) bool {
-		ce, ok := n.(*ast.CallExpr)
-		if !ok || c03ExprText(ce.Fun) != "registry.Register" || len(ce.Args) != 2 {
-			return true
-		}
-		if bl, ok := ce.Args[0].(*ast.BasicLit); ok && bl.Kind == token.STRING {
-			name, _ := strconv.Unquote(bl.Value)
-			e := ce.Args[1]
-			if u, ok := e.(*ast.UnaryExpr); ok {
-				e = u.X
-			}
-			if c, ok := e.(*ast.CompositeLit); ok {
-				e = c.Type
-			}
-			facs = append(facs, name+":"+c03ExprText(e))
-		}
-		return true
-	})
-	if len(defs) == 0 {
-		return nil, nil, fmt.Errorf("defaults.go: no default matcher found")
+	facs = rest.sorted()
+	if defs == nil {
+		defs = []string{}
 	}
-	return defs, facs, nil
+	if facs == nil {
+		facs = []string{}
+	}
+	return defs, facs
 }
 
 // rxQueryBuilderFacts evaluates datastore/postgres buildGetQuery (probe
